@@ -361,10 +361,24 @@ func (m *M) loadedCopy(src *Inst, name string) *Inst {
 	for h := range src.invalid {
 		inst.invalid[h] = true
 	}
+	for n := range src.excluded {
+		inst.excluded[n] = true
+	}
 	inst.lastSaveWork = src.lastSaveWork
 	inst.mainTip = src.mainTip
 	inst.floor = src.floor
+	for n := range src.forgot {
+		inst.forgot[n] = true
+	}
 	m.shrinkHeld(inst)
+	// what Load does not restore is no longer an accepted header of this instance
+	tip := m.reported(inst)
+	for n := range inst.acc {
+		if !inst.held[n] && !model.IsAncestorOrEqual(n, tip) {
+			delete(inst.acc, n)
+			inst.forgot[n] = true
+		}
+	}
 	return inst
 }
 
